@@ -50,9 +50,23 @@ def check_C18(tier):
     res.add_failures(fails, "resolver-client-gone")
     res.traces += summ["executions"]
     res.evaluations += summ["executions"]
+    # ... or stops reading first and closes its writing end later: the bridge finds out when it forwards the late reply
+    fails, summ, _ = run_vh_parallel(vh, ["bridge", "--abandon-readend"], gone[1::2] if not thorough else gone, n=6, timeout=2400, env=env)
+    res.add_failures(fails, "resolver-client-stops-reading")
+    res.traces += summ["executions"]
+    res.evaluations += summ["executions"]
     goned = [c for c in direct if c["payload"] == 0 and c["pipelined"] and c["reqs"] and c["reqs"][-1]["k"] != "upgrade"]
     fails, summ, _ = run_vh_parallel(vh, ["bridge", "--direct=connect", "--abandon"], goned, n=4, timeout=2400, env=env)
     res.add_failures(fails, "direct-client-gone")
+    res.traces += summ["executions"]
+    res.evaluations += summ["executions"]
+    fails, summ, _ = run_vh_parallel(vh, ["bridge", "--direct=connect", "--abandon-readend"], goned, n=4, timeout=2400, env=env)
+    res.add_failures(fails, "direct-client-stops-reading")
+    res.traces += summ["executions"]
+    res.evaluations += summ["executions"]
+    # the client leaves while the bridge is blocked forwarding a reply larger than the pipe
+    fails, summ, _ = run_vh(vh, ["bridge", "--burst"], [], timeout=900, env=env)
+    res.add_failures(fails, "client-leaves-mid-reply")
     res.traces += summ["executions"]
     res.evaluations += summ["executions"]
     # byte sizes around the bridge's copy buffer for what an upgraded service says first (refines `greet`)
